@@ -1,2 +1,3 @@
 pub mod c18;
 pub mod c17;
+pub mod c16;
